@@ -4903,6 +4903,13 @@ func (c *BytecodeCompiler) compileGenericMethodCallNode(node *ast.GenericMethodC
 }
 
 func (c *BytecodeCompiler) compileMethodCall(receiver ast.ExpressionNode, op *token.Token, nameNode ast.IdentifierNode, args []ast.ExpressionNode, tailCall bool, location *position.Location) {
+	if c.isGenerator {
+		// The value of the last expression of a generator is yielded
+		// and the generator has to signal the end of iteration afterwards,
+		// its frame must outlive the call.
+		tailCall = false
+	}
+
 	name := identifierToName(nameNode)
 
 	switch op.Type {
